@@ -150,6 +150,96 @@ func init() {
 		i.ps.track = t
 		return nil
 	})
+	// vrtSharedWithLibrary(x) string: "" or the path of a library-held location (package-level variable, sync.Pool
+	// or sync.Map content) that x can reach as well: a value handed to a caller must not stay aliased by the library.
+	V("vrtSharedWithLibrary", func(fr *frame, a []value) value {
+		t := &tracker{cells: map[*value]string{}, maps: map[*omap]string{}, seen: map[string]bool{}}
+		i := fr.i
+		var names []string
+		byName := map[string]*value{}
+		for g, cell := range i.globals {
+			if g.Pkg == nil || !strings.Contains(g.Pkg.Pkg.Path(), "compose-spec/compose-go") {
+				continue
+			}
+			n := g.Pkg.Pkg.Path() + "." + g.Name()
+			names = append(names, n)
+			byName[n] = cell
+		}
+		sort.Strings(names)
+		for _, n := range names {
+			t.walk(*byName[n], n, 0)
+		}
+		if s := i.ps.sched; s != nil {
+			k := 0
+			for _, l := range s.pools {
+				for _, v := range l {
+					t.walk(v, fmt.Sprintf("sync.Pool#%d", k), 0)
+					k++
+				}
+			}
+			for _, m := range s.smaps {
+				t.walk(m, fmt.Sprintf("sync.Map#%d", k), 0)
+				k++
+			}
+		}
+		// now walk x and look for a location already owned by the library
+		found := ""
+		seen := map[*value]bool{}
+		var look func(v value, depth int)
+		look = func(v value, depth int) {
+			if found != "" || depth > 80 {
+				return
+			}
+			switch x := v.(type) {
+			case iface:
+				if x.t != nil {
+					look(x.v, depth+1)
+				}
+			case *value:
+				if x == nil || seen[x] {
+					return
+				}
+				seen[x] = true
+				if p, ok := t.cells[x]; ok {
+					found = p
+					return
+				}
+				look(*x, depth+1)
+			case *omap:
+				if x == nil {
+					return
+				}
+				if p, ok := t.maps[x]; ok {
+					found = "map " + p
+					return
+				}
+				for _, e := range x.live() {
+					look(e.val, depth+1)
+				}
+			case []value:
+				full := x[:cap(x)]
+				for k := range full {
+					if p, ok := t.cells[&full[k]]; ok {
+						found = p
+						return
+					}
+					if k < len(x) {
+						look(full[k], depth+1)
+					}
+				}
+			case array:
+				for k := range x {
+					look(x[k], depth+1)
+				}
+			case structure:
+				for k := range x {
+					look(x[k], depth+1)
+				}
+			}
+		}
+		look(a[0], 0)
+		return found
+	})
 	V("vrtTrackReportAll", func(fr *frame, a []value) value {
 		t := fr.i.ps.track
 		fr.i.ps.track = nil
